@@ -83,7 +83,8 @@ def hostile_dtstart(rng):
         ds = rrgen.gen_dtstart(rng)
         return rrgen.dtstart_text(ds)
     return rng.choice(["20991231T235959", "20991231", "19020101T000000", "19000228", "21000101", "20240229T235959", "20230230", "20231301",
-                       "00010101", "40950101T000000", "20240101T240000", "20240101T236060"])
+                       "00010101", "40950101T000000", "20240101T240000", "20240101T236060", "14401501T090000", "14401901", "14400039",
+                       "14401232T000000", "14450101T120000", "15100101", "13420101", "14441230T235959", "20241901", "20240039"])
 
 
 def run(ctx):
@@ -156,7 +157,9 @@ def run(ctx):
     # whole calendars with hostile rule lines
     cals = []
     for i in range(300 if thorough else 80):
-        lines = ["BEGIN:VCALENDAR", "BEGIN:VEVENT", "UID:h%d" % i, "SUMMARY:x", "DTSTART:%s" % hostile_dtstart(rng)]
+        par = rng.choice(["", "", "", ";SCALE=HIJRI", ";SCALE=HIJRI.IA", ";SCALE=HIJRI.DIYANET", ";TZID=Europe/Berlin", ";VALUE=DATE",
+                          ";SCALE=HIJRI.IVC;TZID=Asia/Kolkata"])
+        lines = ["BEGIN:VCALENDAR", "BEGIN:VEVENT", "UID:h%d" % i, "SUMMARY:x", "DTSTART%s:%s" % (par, hostile_dtstart(rng))]
         for _ in range(rng.randint(1, 3)):
             lines.append(rng.choice(["RRULE:", "RRULE:", "EXRULE:", "X-GA-MRULE:"]) + rng.choice(texts))
         if rng.random() < 0.4:
@@ -165,10 +168,32 @@ def run(ctx):
             lines.append("EXDATE:" + ",".join(hostile_dtstart(rng) for _ in range(rng.randint(1, 5))))
         lines += ["END:VEVENT", "END:VCALENDAR", ""]
         cals.append("p.parse " + "\n".join(lines).encode("latin-1").hex())
+    # dates no calendar has, in the scales whose tables they would index
+    for par, dsx in ((";SCALE=HIJRI.IA", "14401501T090000"), (";SCALE=HIJRI", "14401901"), (";SCALE=HIJRI.DIYANET", "14400039"),
+                     (";SCALE=HIJRI.IVC", "14401232T000000"), ("", "20241501T090000Z"), (";SCALE=HIJRI.IIIA", "14401900T000000")):
+        for rule in ("FREQ=DAILY;COUNT=3", "FREQ=MONTHLY;COUNT=3;SCALE=HIJRI", "FREQ=YEARLY;BYMONTHDAY=1;SHIFT=3"):
+            cals.append("p.parse " + ("BEGIN:VCALENDAR\nBEGIN:VEVENT\nUID:a\nSUMMARY:x\nDTSTART%s:%s\nRRULE:%s\nEND:VEVENT\nEND:VCALENDAR\n"
+                                      % (par, dsx, rule)).encode().hex())
     pimpl, pst, perr = ctx.impl(exe, cals, timeout=BUDGET * len(cals))
     for k, a in enumerate(pimpl):
         if a.startswith("<"):
             fails.append((cals[k], "the calendar parser %s" % a[:200]))
+    # rules as filters (echse unroll --filter): dense rules fill the filter's whitelist to the brim
+    import datetime as _dt
+    mops = []
+    for txt in ("FREQ=YEARLY;BYMONTHDAY=" + ",".join(map(str, range(1, 32))), "FREQ=YEARLY;BYDAY=MO,TU,WE,TH,FR,SA,SU",
+                "FREQ=YEARLY;BYYEARDAY=" + ",".join(map(str, range(1, 367, 1)))[:900].rsplit(",", 1)[0], "FREQ=YEARLY;BYMONTH=1,2,3,4,5,6,7,8,9,10,11,12;BYMONTHDAY=-1,-2,-3,1,2,3,4,5,6,7,8,9,10,11,12,13,14,15,16,17,18,19,20",
+                "FREQ=YEARLY;BYMONTHDAY=15;BYHOUR=9"):
+        st1, _, _ = ctx.impl(exe, ["r.parse " + txt.encode().hex()])
+        if not st1 or not st1[0].startswith("freq="):
+            continue
+        d0 = _dt.date(rng.randint(1990, 2060), 1, 1)
+        days = [d0 + _dt.timedelta(days=k) for k in range(0, 800, rng.choice([1, 1, 2]))]
+        mops.append("r.match %s | %s" % (st1[0], " ".join(common.hex16(x.year, x.month, x.day, 255, 0, 0, 0) for x in days)))
+    mimpl, mst, merr = ctx.impl(exe, mops, timeout=120)
+    for k, a in enumerate(mimpl):
+        if a.startswith("<"):
+            fails.append((mops[k][:300], "the rule used as a filter: %s" % a[:200]))
     # filler calls through the model (fuel never ends a loop: theorems; here: same answers)
     sub = [wf[i] for i in sorted(rng.sample(range(len(wf)), min(len(wf), 150)))]
     fops, fimpl, fmodel = p_rrfill.chains(ctx, exe, sub, rng, nfills=3)
